@@ -1,10 +1,125 @@
 import RgVerif.Model.Sx
+import RgVerif.Model.ParWalk
+/-
+Driver of C07.  The harness serialises the real worker threads with the `verif-hooks` yield hook and
+reports, for every *coarse* step (one worker running from one yield point to the next), the worker,
+and — when the step was a successful `Stack::steal` round — the victim and the batch size it
+observed.  `c07.run` replays that schedule in the model with `stepFn` (a coarse step is a fixed
+sequence of fine model steps of the same worker) and answers, per coarse step, the yield point the
+model predicts next for that worker, the deque lengths and the labels visited.
+-/
 namespace RgVerif.Driver.C07
-open RgVerif
+open RgVerif RgVerif.ParWalk
 
-/-- Request handler of property C07: `cmd` is the first token of the line, `args` the rest. -/
+partial def parseTree : Sx → Option Tree
+  | .list (l :: ks) => do
+    let l ← l.nat?
+    let ks ← ks.mapM parseTree
+    pure (.node l ks)
+  | _ => none
+
+/-- Name of the yield point a worker is parked at (`-` for program points without a hook). -/
+def yieldName : Pc → String
+  | .recv _ => "pop"
+  | .steal _ _ => "steal"
+  | .activate _ => "act"
+  | .check _ => "isq"
+  | .hold _ => "-"
+  | .running (_ :: _) => "push"
+  | .running [] => "-"
+  | .setQuit => "setq"
+  | .deact => "deact"
+  | .sleep => "sleep"
+  | .sendQuit _ => "push"
+  | .exiting _ => "exit"
+  | .exited _ => "done"
+
+/-- Run through the program points that have no yield hook (`visit`, end of `run_one`). -/
+def settle (n w : Nat) (quitAt : Option Nat) : Nat → State → Option State
+  | 0, s => some s
+  | fuel + 1, s =>
+    match s.pc w with
+    | .hold _ =>
+      let a := if quitAt == some s.visited.length then Act.visitQuit else Act.visitCont
+      (stepFn n s w a).bind (settle n w quitAt fuel)
+    | .running [] => (stepFn n s w .go).bind (settle n w quitAt fuel)
+    | _ => some s
+
+/-- A whole `Stack::steal` round: fail on the victims before `v`, then take `k` from `v`;
+without observation every attempt fails. -/
+def stealRound (n w : Nat) (obs : Option (Nat × Nat)) : Nat → State → Option State
+  | 0, _ => none
+  | fuel + 1, s =>
+    match s.pc w with
+    | .steal _ [] => if obs.isNone then stepFn n s w .go else none
+    | .steal _ (v :: _) =>
+      match obs with
+      | some (v', k) =>
+        if v = v' then stepFn n s w (.stealOk k)
+        else (stepFn n s w .stealFail).bind (stealRound n w obs fuel)
+      | none => (stepFn n s w .stealFail).bind (stealRound n w obs fuel)
+    | _ => none
+
+/-- One coarse step of worker `w`. -/
+def coarse (n w : Nat) (obs : Option (Nat × Nat)) (quitAt : Option Nat) (s : State) : Option State :=
+  match s.pc w with
+  | .steal _ _ => (stealRound n w obs (n + 2) s).bind (settle n w quitAt 4)
+  | .exited _ => none
+  | _ => if obs.isSome then none else (stepFn n s w .go).bind (settle n w quitAt 4)
+
+def lensStr (n : Nat) (s : State) : String :=
+  ",".intercalate ((List.range n).map fun w => toString (s.dq w).length)
+
+def labelsStr (ls : List Nat) : String :=
+  if ls.isEmpty then "-" else ",".intercalate (ls.map toString)
+
+def parseStep : Sx → Option (Nat × Option (Nat × Nat))
+  | .list [w] => do pure ((← w.nat?), none)
+  | .list [w, v, k] => do pure ((← w.nat?), some ((← v.nat?), (← k.nat?)))
+  | _ => none
+
+def runCoarse (n : Nat) (quitAt : Option Nat) :
+    List (Nat × Option (Nat × Nat)) → Nat → State → List String → (List String × State × Option Nat)
+  | [], _, s, acc => (acc.reverse, s, none)
+  | (w, obs) :: rest, i, s, acc =>
+    match coarse n w obs quitAt s with
+    | none => (acc.reverse, s, some i)
+    | some s' =>
+      let ev := s'.visited.drop s.visited.length
+      let line := s!"{yieldName (s'.pc w)}/{lensStr n s'}/{labelsStr ev}/{s'.active}/{if s'.quitNow then 1 else 0}"
+      runCoarse n quitAt rest (i + 1) s' (line :: acc)
+
 def handle (cmd : String) (args : List Sx) : String :=
   match cmd, args with
+  | "c07.run", [.list [.atom "threads", n], .list [.atom "quit", q], .list (.atom "roots" :: rs),
+               .list (.atom "sched" :: ss)] =>
+    match n.nat?, rs.mapM parseTree, ss.mapM parseStep with
+    | some n, some roots, some sched =>
+      let quitAt : Option (Option Nat) :=
+        match q with
+        | .atom "-" => some none
+        | x => (x.nat?).map some
+      match quitAt with
+      | none => "bad-op"
+      | some quitAt =>
+        if n = 0 then "bad-op" else
+        let s0 := init n roots
+        let (lines, s, stuck) := runCoarse n quitAt sched 0 s0 []
+        let body := " ".intercalate lines
+        let tail :=
+          match stuck with
+          | some i =>
+            let w : Nat := match sched[i]? with
+              | some (w, _) => w
+              | none => 0
+            s!"stuck {i} {yieldName (s.pc w)}"
+          | none => "ok"
+        s!"{body} | {tail} | visited {labelsStr s.visited} | exited {if allExitedB n s then 1 else 0} | quit {if s.quitNow then 1 else 0} | mu0 {mu n s0} | mu {mu n s} | active {s.active} | init {lensStr n s0}"
+    | _, _, _ => "bad-op"
+  | "c07.mu", [.list [.atom "threads", n], .list (.atom "roots" :: rs)] =>
+    match n.nat?, rs.mapM parseTree with
+    | some n, some roots => toString (mu n (init n roots))
+    | _, _ => "bad-op"
   | _, _ => "bad-op"
 
 end RgVerif.Driver.C07
